@@ -43,6 +43,8 @@ PROBES = [
     "interposed-op-ran",
     "handles>=2",
     "batch-committed",
+    "two-views-of-one-root-open-at-once",
+    "write-through-the-handle-of-an-ended-batch",
     "operation-ended-by-read-error",
     "batched-operation-ended-by-read-error",
 ]
@@ -217,14 +219,33 @@ class World(HWorld):
         v = unhx(cmd.get("v", ""))
         status = res = None
         new_root = None
+        twin_view = bool(cmd.get("two")) and not self.nested
         try:
             with h.trie.at_root(root) as snap:
-                self.arm(cmd)
-                status, res = self.call((lambda: snap.set(k, v)) if v else (lambda: snap.delete(k)))
-                w = self.disarm()
-                if not self.nested:
-                    self.write_counts[self.idx] = w[0]
-                new_root = snap.root_hash
+                if twin_view:
+                    # a second reader has a view of the same root open at the same time
+                    other_cm = h.trie.at_root(root)
+                    other = other_cm.__enter__()
+                try:
+                    self.arm(cmd)
+                    status, res = self.call((lambda: snap.set(k, v)) if v else (lambda: snap.delete(k)))
+                    w = self.disarm()
+                    if not self.nested:
+                        self.write_counts[self.idx] = w[0]
+                    new_root = snap.root_hash
+                    if twin_view:
+                        if other.root_hash != root:
+                            self.viol("old-root-wrong-contents", f"a second at_root view of {root.hex()} moved to {other.root_hash.hex()} when another view of the same root was written to")
+                        for kk in (sorted(contents)[:3] + [k]):
+                            st2, got = self.call(other.get, kk)
+                            if st2 == "exc" or got != contents.get(kk, b""):
+                                self.viol("old-root-wrong-contents", f"a second at_root view of {root.hex()} reads {got!r} for {kk.hex()} after another view of the same root was written to; the root stands for {contents.get(kk, b'')!r}")
+                        self.st.probe("two-views-of-one-root-open-at-once")
+                finally:
+                    if twin_view:
+                        other_cm.__exit__(None, None, None)
+        except Violation:
+            raise
         except Exception as e:  # at_root itself refused
             return "exc:" + type(e).__name__
         after = dict(contents)
@@ -248,6 +269,25 @@ class World(HWorld):
             self.viol("old-root-wrong-contents", f"root {new_root.hex()} reached through a snapshot stands for other contents than recorded")
         self.st.probe("snapshot-written-through")
         return "ok"
+
+    def op_stale(self, h, cmd):
+        """A client kept the handle of a batch that has ended (committed or not) and writes
+        through it later — possibly while other batches are open.  Whatever that does to the
+        stale handle itself, nobody else may notice: it reaches neither the store nor
+        anybody's open batch."""
+        t = getattr(h, "stale", None)
+        if t is None:
+            return "skip"
+        k, v = unhx(cmd["k"]), unhx(cmd["v"])
+        try:
+            t.set(k, v)
+            if cmd.get("twice"):
+                t.set(k, v + b"-again")
+            out = "ok"
+        except Exception as e:
+            out = "exc:" + type(e).__name__
+        self.st.probe("write-through-the-handle-of-an-ended-batch")
+        return out
 
     def op_timetravel(self, h, cmd):
         """Operator re-opens the handle at an arbitrary earlier root (fresh object)."""
@@ -369,12 +409,16 @@ def generate(rng):
     for _ in range(rng.choice([0, 1, 2, 4])):
         pos = rng.randrange(len(cmds) + 1)
         if rng.random() < 0.65:
-            c = {"op": "snapwrite", "h": rng.randrange(nh), "root": rng.randrange(1000), "k": hx(rng.choice(pool))}
+            c = {"op": "snapwrite", "h": rng.randrange(nh), "root": rng.randrange(1000), "k": hx(rng.choice(pool)), "two": int(rng.random() < 0.5)}
             if rng.random() < 0.75:
                 c["v"] = hx(rng.choice(values))
         else:
             c = {"op": "timetravel", "h": rng.randrange(nh), "root": rng.randrange(1000), "assign": int(rng.random() < 0.5)}
         cmds.insert(pos, c)
+    # a client that kept the handle of an ended batch writes through it now and then
+    if rng.random() < 0.3:
+        for _ in range(rng.choice([1, 2, 4])):
+            cmds.insert(rng.randrange(len(cmds) + 1), {"op": "stale", "h": rng.randrange(nh), "k": hx(rng.choice(pool)), "v": hx(rng.choice(values) or b"v"), "twice": int(rng.random() < 0.7)})
     # interposition: an operation of another handle runs inside a db access of this one
     if nh >= 2:
         for _ in range(rng.choice([0, 1, 2, 3])):
